@@ -32,7 +32,10 @@ def run(ctx):
     k = 3 if quick else 5
     if ctx.replay:
         n = 0
-    cases, impl, model, src, meta = _core.run_mode(ctx, harness, exe, "c01", n, ["--k", str(k)])
+    if n == 0:  # replay of a recorded exploration case: only stream 3 re-runs it
+        cases, impl, model, src, meta = [], [], [], [], []
+    else:
+        cases, impl, model, src, meta = _core.run_mode(ctx, harness, exe, "c01", n, ["--k", str(k)])
     groups = {}
     mism = 0
     incons = 0
@@ -70,6 +73,9 @@ def run(ctx):
                                "program": src[i], "impl": impl[i], "model": model[i],
                                "searched": "all %d rearrangements of this program evaluate alike on the implementation" % len(idx)},
                               no_input=True)
+    # 3. EXPLORATION stream c01x (impl vs impl, NOT covered by the theorems): a much richer generated
+    # fragment (harness/core/rich.go) compared with its rearrangements on the implementation alone
+    explo = run_c01x(ctx, harness, quick)
     ctx.coverage.update({
         "obligations": proof["obligations"], "discharged": proof["discharged"],
         "checker_cmd": proof["checker_cmd"] + ("; coqchk -silent -o Verif.Properties.C01" if not quick else ""),
@@ -83,13 +89,65 @@ def run(ctx):
         "impl_vs_model_mismatches": mism, "impl_inconsistent_groups": incons,
         "corpus_pairs": len(pairs), "corpus_pair_failures": pair_fail,
         "harness_build_s": hsecs,
+        "exploration_c01x": explo,
     })
     ctx.assumptions.extend(_core.CORE_TRUSTED)
+
+
+C01X_KIND = "rearrangement-changes-value (exploration, outside the proved fragment)"
+
+
+def run_c01x(ctx, harness, quick):
+    """Exploration (no model, no theorem): programs of the rich fragment of harness/core/rich.go, each with
+    k rearrangements (some as a multi-file package); canonical forms must be equal.  At most 5 replays."""
+    import json
+    import time
+    d = os.path.join(ctx.work, "c01x")
+    os.makedirs(d, exist_ok=True)
+    args = [harness, "--mode", "c01x", "--seed", str(ctx.seed), "--out", d, "--max-replays", "5"]
+    if ctx.replay:
+        payload = json.load(open(ctx.replay))
+        payload = payload.get("payload", payload)
+        if payload.get("kind") != C01X_KIND:
+            return {"skipped": "replay of another stream"}
+        rc = os.path.join(d, "replay-cases.json")
+        json.dump([{"program": payload["program"], "rearranged": payload["rearranged"]}], open(rc, "w"))
+        args += ["--replay-cases", rc]
+    else:
+        args += ["--n", str(1500 if quick else 40000), "--k", "6"]
+    t0 = time.time()
+    vlib.run(args, timeout=3000)
+    secs = round(time.time() - t0, 1)
+    rep = json.load(open(os.path.join(d, "report.json")))
+    for dis in (rep.get("disagreements") or [])[:5]:
+        ctx.violation({"kind": C01X_KIND, "program": dis["program"], "rearranged": dis["rearranged"],
+                       "canon_a": dis["canon_a"], "canon_b": dis["canon_b"],
+                       "rearrangement": dis.get("rearrangement"), "shrunk": dis.get("shrunk"),
+                       "program_before_shrinking": dis.get("program_before_shrinking"),
+                       "features": dis.get("features"),
+                       "note": "files of a multi-file rearrangement are separated by '-- next file --'; "
+                               "canon_a/canon_b list only the top-level fields whose canonical form differs"})
+    return {
+        "label": "EXPLORATION (impl vs impl on a richer fragment; not a proof, not tied to the Coq model)",
+        "exploration_programs": rep.get("programs", 0),
+        "exploration_distinct_programs": rep.get("distinct_programs", 0),
+        "exploration_rearrangements": rep.get("rearrangements", 0),
+        "features": rep.get("features", {}),
+        "rearrangement_kinds": rep.get("rearrangement_kinds", {}),
+        "value_status": rep.get("status", {}),
+        "declarations_avg": rep.get("declarations_avg"),
+        "programs_not_compiling": rep.get("not_compiling", 0),
+        "disagreements": rep.get("disagreement_count", 0),
+        "wall_s": secs,
+        "samples": (rep.get("samples") or [])[:2],
+        "excluded_classes": "disjunctions/default marks (F2), embedded plain struct literals (F8), computations over "
+                            "references into erroneous values (F17: guarded declarations are left out)",
+    }
 
 
 MANIFEST = {
     "category": "proof",
     "text": "Coq theorems (equalities of result trees, every fuel and universe) for the CoreCUE conjunct-group semantics: the value of a node depends only on the set of conjunct groups and, within a group, on the set of operands - hence permutation of declarations/files, duplication, commutation/re-association/idempotence of &, & _, split/merge of declarations, {e} sole embedding of a reference/close/scalar, and declaration order inside struct literals all preserve the value. The model is tied to cue by exact agreement of canonical result trees (fields, kinds, per-atom acceptance, in-language closedness probes) on generated programs, and the property is checked directly on the implementation by comparing every program with its rearrangements and a multi-file partition.",
-    "note": "Theorems are about CoreCUE (no references between regular fields, comprehensions, lists, disjunctions inside fields); the declaration-order law is proved for literals without embeddings; congruence of the laws under field values is not yet a theorem (checked by the rearrangement harness at every depth). Known finding F8 (embedding a struct literal changes closedness) is reported as KNOWN-FINDING from corpus/C01/pairs.txt; the generator never embeds plain literals.",
+    "note": "Theorems are about CoreCUE (no references between regular fields, comprehensions, lists, disjunctions inside fields); the declaration-order law is proved for literals without embeddings; congruence of the laws under field values is not yet a theorem (checked by the rearrangement harness at every depth). Known finding F8 (embedding a struct literal changes closedness) is reported as KNOWN-FINDING from corpus/C01/pairs.txt; the generator never embeds plain literals. An additional EXPLORATION stream (mode c01x, harness/core/rich.go; impl vs impl, no model, no theorem) compares programs of a much richer generated fragment (references, let, lists and list comprehensions, field comprehensions, templates with pattern constraints, numeric bounds with the type arriving through a reference, embedded definitions, interpolation, arithmetic, close()) with 6 rearrangements each, some as multi-file packages; it excludes disjunctions/defaults (F2), embedded plain literals (F8) and computations over references into erroneous values (F17).",
     "technique": "Coq proof (set-of-conjuncts invariance by induction on depth) + extracted-model differential check + direct metamorphic check on the implementation",
 }
